@@ -1,6 +1,7 @@
 import H264.SpsExact
 import H264.PpsExact
 import H264.SliceExact
+import H264.SpsRangesAll
 /-! # C16 — Accepted parameter sets and slice headers satisfy documented range invariants
 
 Every statement has the form "the parser returned success on *some* input ⇒ the result is within the bounds", for
@@ -29,6 +30,31 @@ theorem sps_accepted_in_range (s s' : Src) (v : Sps.Sps) (h : Sps.parseSps s = .
   refine ⟨⟨sm, wf⟩, ?_⟩
   obtain ⟨_, _, _, w4, _, w6, w7, _, _, _, _, w12⟩ := wf
   refine ⟨by omega, by omega, ?_, ?_, ?_⟩
+  · intro n hn; rw [hn] at w7; simp only [Sps.PicOrderCntType.WF] at w7; omega
+  · intro a b c offs hn; rw [hn] at w7; simp only [Sps.PicOrderCntType.WF] at w7; exact w7.2.2.1
+  · intro u hu
+    rw [hu] at w12
+    simp only [Sps.Vui.WF] at w12
+    obtain ⟨_, _, _, _, hn, hv, _, hb⟩ := w12
+    refine ⟨?_, ?_⟩
+    · rintro hh (hh' | hh')
+      · rw [hh'] at hn; simp only [Sps.OptHrdWF, Sps.Hrd.WF] at hn; exact ⟨hn.2.2.1, hn.2.2.2.1⟩
+      · rw [hh'] at hv; simp only [Sps.OptHrdWF, Sps.Hrd.WF] at hv; exact ⟨hv.2.2.1, hv.2.2.2.1⟩
+    · intro b hb'
+      rw [hb'] at hb
+      simp only [Sps.BitstreamRestrictions.WF] at hb
+      exact ⟨hb.1, hb.2.1, hb.2.2.1, hb.2.2.2.1, hb.2.2.2.2.1, hb.2.2.2.2.2.1⟩
+
+/-- the same bounds for **every** accepted SPS, whatever its profile_idc (no AVC-profile hypothesis): ids, log2 sizes,
+POC cycle length, CPB counts, bitstream-restriction limits and their consistency with max_num_ref_frames, bit depths at
+most 14, and scaling-list counts matching the chroma format (6 4x4 lists and 2 or — for 4:4:4 — 6 8x8 lists) -/
+theorem sps_accepted_in_range_every_profile (s s' : Src) (v : Sps.Sps) (h : Sps.parseSps s = .ok (v, s')) :
+    SpsRanges v ∧ v.chromaInfo.bitDepthLumaMinus8 + 8 ≤ 14 ∧ v.chromaInfo.bitDepthChromaMinus8 + 8 ≤ 14 ∧
+    (∀ m, v.chromaInfo.scalingMatrix = some m →
+      m.l4x4.length = 6 ∧ m.l8x8.length = if v.chromaInfo.chromaFormat = .yuv444 then 6 else 2) := by
+  obtain ⟨core, b1, b2, b3, _⟩ := Sps.parseSps_ranges_all s s' v h
+  obtain ⟨_, _, _, w4, w6, w7, _, _, _, _, w12⟩ := core
+  refine ⟨⟨by omega, by omega, ?_, ?_, ?_⟩, by omega, by omega, b3⟩
   · intro n hn; rw [hn] at w7; simp only [Sps.PicOrderCntType.WF] at w7; omega
   · intro a b c offs hn; rw [hn] at w7; simp only [Sps.PicOrderCntType.WF] at w7; exact w7.2.2.1
   · intro u hu
